@@ -34,10 +34,9 @@ PLAN.update({
     "C08": {"units": [], "native": "c08",
             "bounded_fns": ["constant_variable_optimization", "immutable_variables_optimization", "memory_to_calldata_optimization",
                             "sstore_optimization", "get_32_byte_storage_variables"]},
-    "C09": {"units": [], "native": "c09",
-            "bounded_fns": ["safe_math_optimization", "string_error_optimization", "short_revert_string_optimization",
-                            "get_solidity_version_from_source_unit (regex)"]},
-    "C04": {"units": [(E, ALL_EXPR), ("slots", None), ("det_decl", None)], "walker": True, "native": "c04", "native_profiles": ["release", "nochecks"],
+    "C09": {"units": [("det_gate", None)], "native": "c09",
+            "bounded_fns": ["get_solidity_version_from_source_unit (regex-based version extractor: run on the whole version domain by the native check)"]},
+    "C04": {"units": [(E, ALL_EXPR), ("slots", None), ("det_decl", None), ("det_gate", None)], "walker": True, "native": "c04", "native_profiles": ["release", "nochecks"],
             "bounded_fns": ["every detector not listed under functions_under_contract (all 30 detectors are run on the totality corpus)"]},
     "C19": {"units": [(E, ALL_EXPR), ("det_decl", None)], "native": "c19",
             "bounded_fns": ["detectors outside units det_expr / det_decl (whole file vs. all-but-one-item-blanked, bounded)"]},
